@@ -256,9 +256,9 @@ impl Package {
                     .map(|x| format!("{:x}", x))
                     .collect();
 
-                if key_ids.len() != 1 {
+                if new_key_ids.len() != 1 {
                     return Err(Error::UnexpectedIssuerCount(
-                        key_ids.len().try_into().unwrap(),
+                        new_key_ids.len().try_into().unwrap(),
                     ));
                 }
 
